@@ -28,6 +28,14 @@ pub struct PaceCase {
     /// each read() call blocks this many milliseconds
     #[serde(default)]
     pub read_block_ms: u64,
+    /// a fixed-rate adapter: the port accepts the 19200-baud configuration but keeps reporting this rate (0 = a
+    /// normal port); the pauses are a property of the sign, not of the line speed
+    #[serde(default)]
+    pub pinned_baud: u32,
+    /// the first reply line on the tape is damaged (bad checksum) and followed by the real reply: a bus that quietly
+    /// asks again must still pace the in-progress report it finally returns
+    #[serde(default)]
+    pub garbled_first: bool,
 }
 
 struct Trial {
@@ -43,6 +51,13 @@ fn one_trial(c: &PaceCase) -> Result<Trial, String> {
     let mut tape = vec![];
     if reply_expected(&c.msg) {
         if let Some(r) = &c.reply {
+            if c.garbled_first {
+                let mut bad = wire_of(r);
+                let n = bad.len();
+                bad[n - 1] = if bad[n - 1] == b'0' { b'1' } else { b'0' };
+                tape.extend_from_slice(&bad);
+                tape.extend_from_slice(b"\r\n");
+            }
             tape.extend_from_slice(&wire_of(r));
             tape.extend_from_slice(b"\r\n");
         }
@@ -57,14 +72,29 @@ fn one_trial(c: &PaceCase) -> Result<Trial, String> {
     if c.read_block_ms > 0 {
         state.read_block = Some(Duration::from_millis(c.read_block_ms));
     }
+    if c.pinned_baud != 0 {
+        state.pinned_baud = Some(serial_core::BaudRate::from_speed(c.pinned_baud as usize));
+    }
     let port = TestPort::with_state(state);
     let h = port.handle();
     let mut bus = SerialSignBus::try_new(port).map_err(|e| format!("try_new failed: {e}"))?;
     // the calling thread may carry a pending wake-up token from earlier (thread::park/unpark users do);
     // pacing must not depend on it
     std::thread::current().unpark();
-    let r1 = catch(|| bus.process_message(c.msg.to_message()).map(|_| ()).map_err(|e| e.to_string())).map_err(|p| format!("panic: {p}"))?;
+    let r1 = catch(|| bus.process_message(c.msg.to_message()).map_err(|e| e.to_string()).map(|r| r.map(|m| M::from_message(&m)))).map_err(|p| format!("panic: {p}"))?;
     let returned = Instant::now();
+    if c.garbled_first {
+        // the damaged line is an error for the caller (C16's subject); only if the bus hands back an in-progress report
+        // after all does the 100 ms clause apply to it
+        let s = h.borrow();
+        return match r1 {
+            Ok(Some(M::Report(_, 8))) | Ok(Some(M::Report(_, 10))) => {
+                let last_read_end = s.read_calls.last().map(|r| r.at).unwrap_or(returned);
+                Ok(Trial { after_write: Duration::ZERO, after_read: Some(returned.saturating_duration_since(last_read_end)), to_next_write: Duration::from_secs(3600) })
+            }
+            _ => Ok(Trial { after_write: Duration::ZERO, after_read: Some(Duration::from_secs(3600)), to_next_write: Duration::from_secs(3600) }),
+        };
+    }
     r1.map_err(|e| format!("process_message({}) failed on a cooperative port: {e}", c.msg.short()))?;
     let (n_w1, n_r1) = {
         let s = h.borrow();
@@ -288,21 +318,31 @@ pub fn all_pairs(addr: u16) -> Vec<PaceCase> {
     for m in msgs {
         if reply_expected(&m) {
             for r in &replies {
-                out.push(PaceCase { msg: m.clone(), reply: Some(r.clone()), write_block_ms: 0, read_block_ms: 0 });
+                out.push(PaceCase { msg: m.clone(), reply: Some(r.clone()), write_block_ms: 0, read_block_ms: 0, pinned_baud: 0, garbled_first: false });
             }
         } else {
-            out.push(PaceCase { msg: m, reply: None, write_block_ms: 0, read_block_ms: 0 });
+            out.push(PaceCase { msg: m, reply: None, write_block_ms: 0, read_block_ms: 0, pinned_baud: 0, garbled_first: false });
         }
     }
     // the paced exchanges again on a slow line: the 30 ms / 100 ms count from the END of the write / read,
     // however long the port needed for it
     for block in [4u64, 12, 25, 40] {
-        out.push(PaceCase { msg: M::Data { off: 0, data: vec![0xAA; 16] }, reply: None, write_block_ms: block, read_block_ms: 0 });
-        out.push(PaceCase { msg: M::Data { off: 16, data: vec![] }, reply: None, write_block_ms: block, read_block_ms: 0 });
+        out.push(PaceCase { msg: M::Data { off: 0, data: vec![0xAA; 16] }, reply: None, write_block_ms: block, read_block_ms: 0, pinned_baud: 0, garbled_first: false });
+        out.push(PaceCase { msg: M::Data { off: 16, data: vec![] }, reply: None, write_block_ms: block, read_block_ms: 0, pinned_baud: 0, garbled_first: false });
     }
     for block in [1u64, 3, 8] {
-        out.push(PaceCase { msg: M::Query(addr), reply: Some(M::Report(addr, 8)), write_block_ms: 0, read_block_ms: block });
-        out.push(PaceCase { msg: M::Req(addr, 2), reply: Some(M::Report(addr, 10)), write_block_ms: block, read_block_ms: block });
+        out.push(PaceCase { msg: M::Query(addr), reply: Some(M::Report(addr, 8)), write_block_ms: 0, read_block_ms: block, pinned_baud: 0, garbled_first: false });
+        out.push(PaceCase { msg: M::Req(addr, 2), reply: Some(M::Report(addr, 10)), write_block_ms: block, read_block_ms: block, pinned_baud: 0, garbled_first: false });
+    }
+    // fixed-rate adapters: the port keeps reporting another speed after it was configured; the pauses stay 30 / 100 ms
+    for baud in [300u32, 9_600, 115_200, 4_000_000] {
+        out.push(PaceCase { msg: M::Data { off: 0, data: vec![0xAA; 16] }, reply: None, write_block_ms: 0, read_block_ms: 0, pinned_baud: baud, garbled_first: false });
+        out.push(PaceCase { msg: M::Query(addr), reply: Some(M::Report(addr, 10)), write_block_ms: 0, read_block_ms: 0, pinned_baud: baud, garbled_first: false });
+    }
+    // a damaged reply line followed by an in-progress report
+    for state in [8u8, 10] {
+        out.push(PaceCase { msg: M::Query(addr), reply: Some(M::Report(addr, state)), write_block_ms: 0, read_block_ms: 0, pinned_baud: 0, garbled_first: true });
+        out.push(PaceCase { msg: M::Hello(addr), reply: Some(M::Report(addr, state)), write_block_ms: 0, read_block_ms: 0, pinned_baud: 0, garbled_first: true });
     }
     out
 }
